@@ -10,6 +10,7 @@ import (
 	"image/color"
 	"io"
 	"os"
+	"sync/atomic"
 	"time"
 
 	"github.com/biogo/biogo/alphabet"
@@ -274,8 +275,22 @@ func guarded(rd reader) (rec Rec, err error, status string) {
 	}
 }
 
+// Hangs counts reads that did not return within the watchdog's 3 s; after a handful the drivers stop reading
+// further files (each one costs 3 s and a parked goroutine, and the verdict is already clear).
+var Hangs int32
+
+const MaxHangs = 8
+
 // ReadAll calls Read until io.EOF and returns the results in specification shape.
 func ReadAll(format string, cfg Cfg, text []byte, variant int) (results []Rec, stop int, detail string) {
+	defer func() {
+		for _, r := range results {
+			if r["kind"] == "hang" {
+				atomic.AddInt32(&Hangs, 1)
+				break
+			}
+		}
+	}()
 	rd := newReader(format, cfg, text, variant)
 	nl := bytes.Count(text, []byte{'\n'}) + 1
 	results = []Rec{}
@@ -456,6 +471,46 @@ func AlignWrite(format string, cfg Cfg, recs []Rec, variant int) (text []byte, n
 		errs = err.Error()
 	}
 	return w.buf.Bytes(), n, errs
+}
+
+// the wrappers under the same 3 s watchdog as plain reads (a reader that spins at EOF spins here too)
+func scanAllGuarded(format string, cfg Cfg, text []byte, variant int) (ys []Rec, hasErr, sticky bool, status string) {
+	type res struct {
+		ys     []Rec
+		he, st bool
+		status string
+	}
+	ch := make(chan res, 1)
+	go func() {
+		y, h, s, st := ScanAll(format, cfg, text, variant)
+		ch <- res{y, h, s, st}
+	}()
+	select {
+	case r := <-ch:
+		return r.ys, r.he, r.st, r.status
+	case <-time.After(3 * time.Second):
+		atomic.AddInt32(&Hangs, 1)
+		return []Rec{}, false, false, "hang"
+	}
+}
+
+func alignReadAllGuarded(format string, cfg Cfg, text []byte, variant, calls int) (out []Rec, status string) {
+	type res struct {
+		out    []Rec
+		status string
+	}
+	ch := make(chan res, 1)
+	go func() {
+		o, st := AlignReadAll(format, cfg, text, variant, calls)
+		ch <- res{o, st}
+	}()
+	select {
+	case r := <-ch:
+		return r.out, r.status
+	case <-time.After(3 * time.Second):
+		atomic.AddInt32(&Hangs, 1)
+		return []Rec{}, "hang"
+	}
 }
 
 // ---------------------------------------------------------------- writers
@@ -647,6 +702,9 @@ func ReadEmitted(w *vt.W, path string) int {
 	n := 0
 	seen := map[string]bool{}
 	for sc.Scan() {
+		if atomic.LoadInt32(&Hangs) >= MaxHangs {
+			break
+		}
 		if seen[string(sc.Bytes())] {
 			continue
 		}
@@ -674,11 +732,11 @@ func ReadEmitted(w *vt.W, path string) int {
 		w.Emit(ev)
 		if detail == "" || stop > 0 {
 			// extension: the same file through the Scanner wrappers
-			ys, hasErr, sticky, status := ScanAll(e.Fmt, e.Cfg, text, n)
+			ys, hasErr, sticky, status := scanAllGuarded(e.Fmt, e.Cfg, text, n)
 			w.Emit(vt.Ev{"op": "scan", "fmt": e.Fmt, "results": results, "yielded": ys, "err": hasErr, "sticky": sticky, "status": status,
 				"valid": e.Valid, "layout": ev["layout"]})
 			if e.Fmt == "fasta" || e.Fmt == "fastq" {
-				calls, status := AlignReadAll(e.Fmt, e.Cfg, text, n, 3)
+				calls, status := alignReadAllGuarded(e.Fmt, e.Cfg, text, n, 3)
 				w.Emit(vt.Ev{"op": "alnread", "fmt": e.Fmt, "results": results, "calls": calls, "status": status,
 					"valid": e.Valid, "layout": ev["layout"]})
 			}
